@@ -112,7 +112,10 @@ impl DeriveCrate {
             src.push_str(&scalar_prelude_as(&p.schema, "String"));
         }
         src.push_str(&extern_enum_prelude(&p.schema, &o.extern_enums, o.normalization_rust));
-        src.push_str(&format!("#[derive(GraphQLQuery)]\n#[graphql({})]\n{}struct {};\n", attrs.join(", "), vis, op));
+        // the derive selects the operation whose NORMALISED name equals the struct's name: under
+        // normalization = "rust" the struct of operation `my_query` is written `MyQuery`
+        let struct_name = if o.normalization_rust { heck::ToUpperCamelCase::to_upper_camel_case(op) } else { op.to_string() };
+        src.push_str(&format!("#[derive(GraphQLQuery)]\n#[graphql({})]\n{}struct {};\n", attrs.join(", "), vis, struct_name));
         std::fs::write(self.dir.join(format!("src/d{}.rs", k)), &src).unwrap();
         self.mods.push(src);
         k
